@@ -114,6 +114,7 @@ pub fn hist_spec(id: &str, tier: &str) -> Option<(HistSpec, Info)> {
         weights,
         types,
         max_uni: 14,
+        min_ops: 0,
         max_ops: b.2,
         cases: b.0,
         shards: b.1,
@@ -372,6 +373,27 @@ pub fn parts(id: &str, tier: &str) -> Option<(Vec<Part>, Info)> {
         }
         if id == "C16" {
             v.push(Part::Churn);
+        }
+        if matches!(id, "C01" | "C02" | "C03" | "C04" | "C09" | "C10" | "C15" | "C16" | "C18" | "C20") {
+            // large universes and long histories: deep tries, many entries, long free lists
+            if let Some(Part::Hist(first)) = v.first() {
+                let mut big = first.clone();
+                big.label = match id {
+                    "C01" => "C01big", "C02" => "C02big", "C03" => "C03big", "C04" => "C04big", "C09" => "C09big",
+                    "C10" => "C10big", "C15" => "C15big", "C16" => "C16big", "C18" => "C18big", _ => "C20big",
+                };
+                big.max_uni = 56;
+                big.min_ops = 60;
+                big.max_ops = if tier == "thorough" { 400 } else { 160 };
+                big.cases = if tier == "thorough" { 120 } else { 60 };
+                big.shards = if tier == "thorough" { 16 } else { 4 };
+                big.full_queries = false;
+                big.weights.insert += 25;
+                big.weights.clear = 0;
+                big.weights.from_iter = 0;
+                big.weights.b_share = big.weights.b_share.min(10);
+                v.push(Part::Hist(big));
+            }
         }
         if id == "C01" && tier == "thorough" {
             v.push(Part::Fuzz("ops", 25_000));
